@@ -24,7 +24,7 @@ import (
 
 type propDef struct {
 	ID      string
-	Explain string   // what is decided / what is not
+	Explain string // what is decided / what is not
 	Run     func(c *Ctx)
 	Mutants []Mutant // checker self-validation (thorough tier)
 }
@@ -42,15 +42,15 @@ var trustedBase = []string{
 
 func main() {
 	var (
-		prop    = flag.String("prop", "", "property id (C01..C20)")
-		tier    = flag.String("tier", os.Getenv("VERIF_TIER"), "quick|thorough")
-		repo    = flag.String("repo", "/repo", "repository root")
-		verif   = flag.String("verif", "", "verif root (default: parent of the binary's dir)")
-		replay  = flag.String("replay", "", "replay file written by a failed check")
-		all     = flag.Bool("all", false, "run every property (shared load)")
-		verbose = flag.Bool("v", false, "print every obligation")
-		noMut   = flag.Bool("nomutants", false, "thorough tier without mutant self-validation")
-		onlyMut = flag.String("mutant", "", "internal: evaluate one mutant (prop:name) against -repo and print the fired keys")
+		prop     = flag.String("prop", "", "property id (C01..C20)")
+		tier     = flag.String("tier", os.Getenv("VERIF_TIER"), "quick|thorough")
+		repo     = flag.String("repo", "/repo", "repository root")
+		verif    = flag.String("verif", "", "verif root (default: parent of the binary's dir)")
+		replay   = flag.String("replay", "", "replay file written by a failed check")
+		all      = flag.Bool("all", false, "run every property (shared load)")
+		verbose  = flag.Bool("v", false, "print every obligation")
+		noMut    = flag.Bool("nomutants", false, "thorough tier without mutant self-validation")
+		onlyMut  = flag.String("mutant", "", "internal: evaluate one mutant (prop:name) against -repo and print the fired keys")
 		onePatch = flag.String("patch", "", "internal: apply the patch file to a scratch copy of -repo, run -prop, print the fired keys")
 	)
 	explain := flag.Bool("explain", false, "print {id: explanation} of every implemented property as JSON")
